@@ -670,7 +670,7 @@ RULE = (
     "One case = one seeded history: a world of 2-10 clients (detectors and scorers, sharing scorer instances "
     "per a seeded sharing graph) over a seeded dataset pool with same-shape twins, driven for 8-60 (thorough: "
     "-150) public calls chosen by a biased seeded scheduler, with seeded faults (bad data, singular slices, "
-    "interrupts at a skchange source line, failing stub peers, bad cuts). Every output call on a client in a "
+    "interrupts and allocation failures at a skchange source line, failing stub peers, bad cuts). Every output call on a client in a "
     "specified state is compared with a brand-new twin built from the client's current hyper-parameters and "
     "fitted on its training lineage. A history is non-trivial if it contains at least one compared output of a "
     "fitted client (i.e. preceded by state-changing calls on that object); distinct = distinct sequence of "
@@ -683,6 +683,7 @@ ASSUMPTIONS = [
     "direct evaluate on a scorer that another client refitted on other data is not compared (relaxation 2)",
     "hyper-parameter changes take effect at the next fit (relaxation 3)",
     "update is compared for chunks that continue the training index or re-send its last labels (union of labels, newer values win, index order); chunks of another layout are not judged (relaxation 4)",
+    "after an in-place overwrite of its training data object a detector's output must agree with a fresh object fitted on the values at the fit OR on the values the object holds now; scorer clients are not judged until their next fit",
     "numba is absent: the pure-Python fallbacks of skchange run, every source line is a possible crash point",
     "exceptions are compared by type only",
     "sampling, not enumeration: a clean batch is evidence, not proof",
